@@ -571,6 +571,25 @@ pub fn run(args: &Args) -> i32 {
         ctx.stats.merge(st);
         ctx.bound("multi_frame_zstd", json!("zstd payloads of 2, 2 tiny, (empty + 300), (300 + empty + 7) and 12 frames between two ordinary entries"));
     }
+    // prepended data that is itself an archive of the same shape (old.zip ++ new.zip: a self-extractor stub, an update glued
+    // behind its predecessor): record signatures sit in the prefix exactly where the real archive's offsets, taken without
+    // the shift, point
+    {
+        let mut st = Stats::default();
+        // (stored entries of equal lengths: the two archives have byte-for-byte the same layout, only the contents differ)
+        let mk = |salt: u64, comment: &[u8]| Spec { entries: (0..3).map(|i| ESpec { method: 0, content: content_for(0, seed, salt + i as u64), zip64_central: 0, dd: Dd::None, ..red[i].clone() }).collect(), comment: comment.to_vec(), ..Default::default() };
+        for (k, (old_c, new_c)) in [(&b""[..], &b""[..]), (b"old", b"new"), (b"", b"a longer comment on the new one")].into_iter().enumerate() {
+            let old = build(&mk(1000, old_c)).0;
+            for copies in [1usize, 2] {
+                let mut spec = mk(2000, new_c);
+                spec.prefix = old.repeat(copies);
+                let (bytes, lay) = build(&spec);
+                check_archive(&spec, &bytes, &lay, &mut st, (12 << 40) + (k * 2 + copies) as u64, "archive-behind-an-archive");
+            }
+        }
+        ctx.stats.merge(st);
+        ctx.bound("archive_behind_an_archive", json!("a three-entry archive behind one / two copies of another archive of the same shape (other contents), 3 comment combinations"));
+    }
     // zero entries
     let mut st0 = Stats::default();
     for (ai, a) in av_full.iter().enumerate() {
